@@ -33,7 +33,7 @@ from .. import gen
 from fractions import Fraction
 
 from .. import pymodel
-from .common import (Kept, as_params, as_t, as_x, build_both, compare_errors, fl, freeze, lean_assemble, mpf, mpf_s, multiset_close,
+from .common import (BIG_FORMS, Kept, dtype_probe, as_params, as_t, as_x, build_both, compare_errors, fl, freeze, lean_assemble, mpf, mpf_s, multiset_close,
                      net_oracle, spec_oracle, sym_vs_lean, vec_close)
 
 PROP = "C01"
@@ -101,7 +101,9 @@ def probe_for(r, spec, meta, pts):
     nP = len(meta["params"])
     perm = list(range(nP))
     r.shuffle(perm)
-    return {"forms": gen_forms(r, pts, meta["states"]),
+    big = gen.rand_point(r, meta, integer=True, big=True)
+    return {"big": {"point": {k: str(v) for k, v in big.items()}, "x": r.choice(BIG_FORMS)},
+            "forms": gen_forms(r, pts, meta["states"]),
             "reassign_form": r.choice(["list", "tuple", "ndarray", "dict_name", "pairs"]),
             "sibling": {"state_rev": r.random() < 0.7, "param_perm": perm, "derived_bump": True,
                         "last_event_incremental": r.random() < 0.5}}
@@ -480,6 +482,13 @@ def run_case(case):
         if not ok:
             break
     B = None
+    if ok and probe.get("big") and A.nE > 0:
+        # populations of 1e4..1e6 with an integer dtype against the same numbers as floats (see common.dtype_probe)
+        envb = {k: Fraction(v) for k, v in probe["big"]["point"].items()}
+        v_, tg_ = dtype_probe(A.model, EVALUATORS, A.states, A.params, envb, probe["big"]["x"])
+        A.viol += v_; A.tags += tg_
+        A.cur = {p: envb[p] for p in A.params}
+        ok = not A.viol
     if ok and probe and len(pts) >= 2:
         # history on one instance: same (x, t) as point 0 with the parameter values of point 1, then the first values again
         env_r = dict(pts[0]); env_r.update({p: pts[1][p] for p in A.params})
